@@ -65,6 +65,9 @@ CHECKS = {
     "C18": ("pbt-programs", "Hypothesis-generated unit expressions (labelled/unlabelled named units, huge/rational/irrational scale factors) whose printed label is parsed by an independent parser of the documented grammar and evaluated back to (dimension, magnitude): denotation round trip against the model; sizeof/strlen, cross-compiler determinism, exact strings for simple shapes, IToA/UIToA digits, exhaustive streaming of all 8-bit reps incl. plain char; everything under ASan+UBSan",
             "Exploration with a denotational oracle: any label that parses under the documented grammar and denotes the right unit is accepted. One known finding (F3) excluded by construction with a pinned reproducer.",
             "token table (unit symbols, prefix symbols) written in the model; cases whose leaves share a label text are skipped", "4/C18"),
+    "C20": ("pbt-programs", "Hypothesis-generated subsets of unit/constant headers x io flag: single-file header generated by tools/bin/make-single-file from the working tree, built with no Au include path / included twice / in two linked TUs; a generated API-surface program compared between single-file and multi-header builds and across all six compiler/standard configurations (differential oracle); every header compiled on its own, fwd+full orders, fwd-declaration link test",
+            "Exploration with differential oracles (packaging, standard, compiler); enumerated header sweep. Decided for g++ 12 / clang++ 14 with libstdc++ only. One known finding (F5) excluded by construction with a pinned reproducer.",
+            "only IEEE-exact operations and integers are printed for cross-compiler comparison", "4/C20"),
 }
 ENGINES = [
     {"name": "pbt-programs", "path": "auverif/hyp.py", "kind_free_text": "Hypothesis-generated translation units judged by compiler verdict / static_assert / program output against an independent Python model",
@@ -106,7 +109,7 @@ for p in props:
             "technique": tech,
         })
     else:
-        m["not_applicable"].append({"property_id": pid, "reason": "check under construction in this session; not yet claimed"})
+        m["not_applicable"].append({"property_id": pid, "reason": "not claimed"})
 json.dump(m, open(os.path.join(VERIF, "MANIFEST.json"), "w"), indent=1)
 try:
     import jsonschema
